@@ -4,11 +4,14 @@ import argparse
 import hashlib
 import json
 import os
+import re
 import sys
 import time
 
 VERIF = os.path.dirname(os.path.dirname(os.path.abspath(__file__)))
 KNOWN_FILE = os.path.join(VERIF, 'known_findings.json')
+# mutant runs (tools/mutant.sh) redirect their output so that committed evidence is never overwritten
+OUT = os.environ.get('VERIF_OUT_DIR', VERIF)
 
 
 def jenc(x):
@@ -75,6 +78,7 @@ class Check:
 
     def violation(self, signature, message, replay_doc=None):
         """Report one violation (deduplicated by signature)."""
+        signature = re.sub(r' id=\d+', '', signature)     # Message IDs depend on the history
         if signature in self.known:
             if signature not in self.known_hits:
                 self.known_hits[signature] = message
@@ -94,7 +98,7 @@ class Check:
         return pmap(fn, items, self.jobs)
 
     def write_replay(self, signature, message, doc):
-        d = os.path.join(VERIF, 'replays', self.prop)
+        d = os.path.join(OUT, 'replays', self.prop)
         os.makedirs(d, exist_ok=True)
         h = hashlib.sha256(signature.encode()).hexdigest()[:12]
         path = os.path.join(d, h + '.json')
@@ -117,8 +121,8 @@ class Check:
                   coverage=self.coverage, assumptions=self.assumptions, wall_s=round(wall, 2),
                   violations=len(self.violations))
         ev['coverage']['known_findings_seen'] = sorted(self.known_hits)
-        os.makedirs(os.path.join(VERIF, 'evidence'), exist_ok=True)
-        with open(os.path.join(VERIF, 'evidence', self.prop + '.json'), 'w') as f:
+        os.makedirs(os.path.join(OUT, 'evidence'), exist_ok=True)
+        with open(os.path.join(OUT, 'evidence', self.prop + '.json'), 'w') as f:
             json.dump(jenc(ev), f, indent=1)
         cov = self.coverage
         print('%s tier=%s seed=%d: %s wall=%.1fs violations=%d known=%d' % (
